@@ -703,6 +703,27 @@ Fixpoint lang_shape (first : bool) (n : N) (s : str) : bool :=
 Definition lang_ok (s : str) : bool := lang_shape true 0 s.
 
 
+Definition is_nil {A} (l : list A) : bool := match l with [] => true | _ => false end.
+
+Fixpoint take_while (p : N -> bool) (s : str) : str * str :=
+  match s with
+  | c :: r => if p c then let '(a, b) := take_while p r in (c :: a, b) else ([], s)
+  | [] => ([], [])
+  end.
+
+Definition xsd_decimal := s2l "http://www.w3.org/2001/XMLSchema#decimal".
+
+(* the further numeric shorthands of the grammar whose lexical form Literal() keeps: a negative integer
+   -d (d canonical, not 0), a decimal i.f and -i.f (i canonical, f digits, at least one).
+   Doubles have no such form (Literal() re-spells them from the float), +d and +i.f lose the sign. *)
+Definition dec_body (s : str) : bool :=
+  let '(ip, r) := take_while is_digit s in
+  canonical_int ip && match r with 46 :: fp => forallb is_digit fp && negb (is_nil fp) | _ => false end.
+Definition bare_number (lex : str) (dt : option str) : bool :=
+  (ostr_eqb dt (Some xsd_integer)
+   && match lex with 45 :: d => canonical_int d && negb (str_eqb d [48]) | _ => false end)
+  || (ostr_eqb dt (Some xsd_decimal) && match lex with 45 :: b => dec_body b | _ => dec_body lex end).
+
 (* ECHAR spelling of one character of a lexical form inside quotes q *)
 Definition esc_char (st : style) (q c : N) : str :=
   if c =? 9 then [92; 116] else if c =? 10 then [92; 110] else if c =? 13 then [92; 114]
@@ -722,6 +743,7 @@ Definition render_term (st : style) (t : term) : str :=
       if st_bare st && ostr_eqb dt (Some xsd_integer) && ostr_eqb lang None && canonical_int lex then lex
       else if st_bare st && ostr_eqb dt (Some xsd_boolean) && ostr_eqb lang None
               && (str_eqb lex s_true || str_eqb lex s_false) then lex
+      else if st_bare st && ostr_eqb lang None && bare_number lex dt then lex
       else
         let q := quote_of st in
         q :: flat_map (esc_char st q) lex ++ [q]
@@ -751,11 +773,6 @@ Definition render_doc (st : style) (vars : list str) (rows : list row) : str :=
 
 (* --- reader --- *)
 
-Fixpoint take_while (p : N -> bool) (s : str) : str * str :=
-  match s with
-  | c :: r => if p c then let '(a, b) := take_while p r in (c :: a, b) else ([], s)
-  | [] => ([], [])
-  end.
 
 (* line ends of str.splitlines(), which codecs.StreamReader.readline uses (the reader before
    e84c9b4e on byte sources); on a text stream, and now always, only LF ends a line *)
@@ -863,11 +880,46 @@ Definition keyword (kw : str) (s : str) : option str :=
   | None => None
   end.
 
+(* NumericLiteral = (DOUBLE | DECIMAL | INTEGER) with an optional sign.  INTEGER [0-9]+, DECIMAL [0-9]*\.[0-9]+ ;
+   a DOUBLE (exponent) is recognised and NOT modelled (None): Literal() re-spells it from the float value.
+   Some (is_decimal, integer part, fraction, rest) *)
+Definition scan_unsigned (s : str) : option (bool * str * str * str) :=
+  let '(ip, r1) := take_while is_digit s in
+  let is_e := fun (r : str) => match r with c :: _ => (c =? 101) || (c =? 69) | [] => false end in
+  match r1 with
+  | 46 :: r2 =>
+      let '(fp, r3) := take_while is_digit r2 in
+      match fp with
+      | [] => match ip with [] => None | _ => if is_e r2 then None else Some (false, ip, [], r1) end
+      | _ => if is_e r3 then None else Some (true, ip, fp, r3)
+      end
+  | _ => match ip with [] => None | _ => if is_e r1 then None else Some (false, ip, [], r1) end
+  end.
+
+(* the parse actions: Literal(text, datatype=...) re-lexicalises (leading zeros go, ".5" becomes "0.5", a
+   plus sign goes); a negative token is neg(Literal) = Literal(-value, datatype): int values, and since
+   53a005c9 Decimal values too (-0.0 stays -0.0) *)
+Definition scan_number (s : str) : option (term * str) :=
+  let '(sign, body) := match s with
+                       | c :: r => if c =? 43 then (1, r) else if c =? 45 then (2, r) else (0, s)
+                       | [] => (0, s)
+                       end in
+  match scan_unsigned body with
+  | None => None
+  | Some (isdec, ip, fp, rest) =>
+      if isdec then
+        let d := (match ip with [] => [48] | _ => strip_zeros ip end) ++ 46 :: fp in
+        Some (Lit (if sign =? 2 then 45 :: d else d) (Some xsd_decimal) None, rest)
+      else
+        let n := strip_zeros ip in
+        Some (Lit (if (sign =? 2) && negb (str_eqb n [48]) then 45 :: n else n) (Some xsd_integer) None, rest)
+  end.
+
 (* TERM = RDFLITERAL | IRIREF | BLANK_NODE_LABEL | NumericLiteral | BooleanLiteral, then convertTerm.
    Maximal-run scanners with a shape check stand for the backtracking regular expressions
    of LANGTAG and BLANK_NODE_LABEL: where the expression would match a shorter prefix, the next
    character is of the run's class, hence neither TAB nor end of line, and ROW fails as well.
-   Unsigned integers only; decimals, doubles and signs are not modelled (None). *)
+   Doubles are not modelled (None). *)
 Definition scan_term (s : str) : option (term * str) :=
   match s with
   | [] => None
@@ -901,13 +953,7 @@ Definition scan_term (s : str) : option (term * str) :=
             else None
         | _ => None
         end
-      else if is_digit c then
-        let '(d, rest) := take_while is_digit s in
-        match rest with
-        | c2 :: _ => if (c2 =? 46) || (c2 =? 101) || (c2 =? 69) then None
-                     else Some (Lit (strip_zeros d) (Some xsd_integer) None, rest)
-        | [] => Some (Lit (strip_zeros d) (Some xsd_integer) None, rest)
-        end
+      else if is_digit c || (c =? 46) || (c =? 43) || (c =? 45) then scan_number s
       else match keyword s_true s with
            | Some rest => Some (Lit s_true (Some xsd_boolean) None, rest)
            | None => match keyword s_false s with
@@ -969,7 +1015,6 @@ Fixpoint zip_row (vars : list str) (cells : list (option term)) : prow :=
   | _, _ => []
   end.
 
-Definition is_nil {A} (l : list A) : bool := match l with [] => true | _ => false end.
 
 (* the row loop as it was before the repair of F11a: empty lines skipped, rows with nothing bound dropped *)
 Fixpoint tsv_rows_prefix (vars : list str) (lines : list str) : option (list prow) :=
@@ -1255,9 +1300,12 @@ Record case := { c_fmt : fmt;
                  c_rows : list row;
                  c_style : style;            (* TSV only *)
                  c_bytes : bool;             (* TSV only: the source is a byte stream *)
-                 c_src : N }.                (* CSV only: 0 byte stream, 1 text newline="", 2 text newline LF *)
+                 c_src : N;                  (* CSV only: 0 byte stream, 1 text newline="", 2 text newline LF *)
+                 c_pre : N }.                (* a lazily evaluated result (Graph.query): next() called that many times
+                                                on iter(result) before it is serialised *)
 
-Definition model_obs (c : case) : obs :=
+(* what a format makes of the rows the Result object holds when it is serialised *)
+Definition format_obs (c : case) : obs :=
   match c_fmt c with
   | FJson => json_parse (json_serialize (c_ask c) (c_vars c) (c_rows c))
   | FXml => match xml_serialize (c_ask c) (c_vars c) (c_rows c) with
@@ -1280,6 +1328,42 @@ Definition model_obs (c : case) : obs :=
              | None => csv_parse LUniversal (csv_text (csv_serialize (c_vars c) (c_rows c)))
              end
   end.
+
+(* --- the Result object (rdflib/query.py) between evaluation and serialisation ---
+   A SELECT result of Graph.query holds a generator (_genbindings) and a list (_bindings, empty at first).
+   Result.__iter__ on such a result takes solutions from the generator, appends each to _bindings and yields
+   it "if b:" (a solution that binds something); the bindings property - what every serialiser
+   reads - then is _bindings + the rest of the generator.  k calls of next(): *)
+Fixpoint consume (k : nat) (rows : list row) : list row * list row :=
+  match rows with
+  | [] => ([], [])
+  | r :: rest =>
+      match k with
+      | O => ([], rows)
+      (* since ef926fa5 every solution is kept; one without bindings is just not yielded *)
+      | S k' => let '(a, b) := consume (if is_nil r then k else k') rest in (r :: a, b)
+      end
+  end.
+
+Definition result_rows (c : case) : list row :=
+  let '(a, b) := consume (N.to_nat (c_pre c)) (c_rows c) in a ++ b.
+
+(* a solution without bindings was passed by the partial iteration *)
+Fixpoint consumed_empty (k : nat) (rows : list row) : bool :=
+  match rows with
+  | [] => false
+  | r :: rest =>
+      match k with
+      | O => false
+      | S k' => if is_nil r then true else consumed_empty k' rest
+      end
+  end.
+
+Definition with_rows (c : case) (rows : list row) : case :=
+  {| c_fmt := c_fmt c; c_ask := c_ask c; c_vars := c_vars c; c_rows := rows; c_style := c_style c;
+     c_bytes := c_bytes c; c_src := c_src c; c_pre := c_pre c |}.
+
+Definition model_obs (c : case) : obs := format_obs (with_rows c (result_rows c)).
 
 (* ------------------------------------------------------------------ *)
 (* Specification: what the property says about the observation         *)
@@ -1431,8 +1515,9 @@ Definition wf (c : case) : bool :=
 
 Definition raw_break (c : N) : bool := is_break c && negb (c =? 10).
 
-(* no finding is open: every trigger region of the earlier revisions of this file (F11a-F11i) has been
-   repaired in the code, see notes/C16.md.  F11i was: CSVResultParser wrapped a byte source in a codecs
-   StreamReader (lines as str.splitlines cuts them, [LSplit]); an unquoted field with VT FF FS GS RS
-   U+0085 U+2028 U+2029 was cut. *)
+(* F11a-F11i of the earlier revisions of this file are repaired in the code, see notes/C16.md.
+   (F11i was: CSVResultParser wrapped a byte source in a codecs StreamReader, [LSplit].) *)
 Definition csv_unquoted_break (f : str) : bool := negb (existsb csv_special f) && existsb is_break f.
+
+(* F11j (partial iteration lost solutions without bindings) and F11k (TypeError on a bare negative decimal)
+   are repaired as well: no trigger is left *)
